@@ -278,6 +278,17 @@ class NumpyModel(types.ModuleType):
 
     # constructors
     def array(self, x, *a, dtype=None, **k):
+        if NARROW_F64[0] and self._real is None:
+            # jnp.asarray of a 64-bit scalar (python float / numpy.float64) with x64 disabled (the JAX default) yields a float32
+            # array: the value is ROUNDED.  Modelled by an uninterpreted rounding function (idempotent); 32-bit inputs are exact.
+            from . import reps
+            if isinstance(x, reps.NpFloat64) or (isinstance(x, SReal) and not isinstance(x, reps.Rep)):
+                used("jnp.asarray(64-bit scalar) rounds to float32 (uninterpreted rounding function)")
+                t = F32(x.e)
+                return SArray([], lambda idx: t, "real")
+            if isinstance(x, (reps.NpFloat32, reps.Jax0d)):
+                t = x.e
+                return SArray([], lambda idx: t, "real")
         if self._real is not None and not self._sym(x):
             return self._real.array(x, *a, **({"dtype": dtype} if dtype is not None else {}), **k)
         used("array")
@@ -1190,6 +1201,9 @@ def loop_shape(fn, expect_assigned):
 # ------------------------------------------------------------------------------------------------
 # statistics registry: symbolic sums that must enter non-linear arithmetic (variance, division by a norm)
 # are named by a real symbol; two sums proved equal (up to sign) by the BigSum rules share the symbol
+
+NARROW_F64 = [False]     # set by C19: jnp.asarray of a 64-bit python / numpy scalar narrows to float32 (see NumpyModel.array)
+F32 = z3.Function("round_to_float32", z3.RealSort(), z3.RealSort())
 
 STATS = []
 STAT_MODE = [False]      # when set, jnp.mean returns registered statistics symbols (so that they can enter products)
